@@ -14,7 +14,7 @@ Inv == validated => (~pkAltered /\ ~svcAltered)
 LEMMA ValidatedOpIsHarmless ==
   ASSUME CheckFrom = TRUE, NEW o \in AllOps, OpValidated(o)
   PROVE  ~MayAlterPK(o) /\ ~MayAlterSvc(o)
-<1>1. o.kind \in Kinds /\ o.spell \in {"plain", "From", "Op", "Kind"}
+<1>1. o.kind \in Kinds /\ o.spell \in {"plain", "From", "Op", "Kind", "Extra"}
   <2>1. CASE o \in OpsWithPath
     <3>1. PICK k \in Kinds \ {"move", "copy"} : o \in {Op(k, p, p) : p \in Ptrs}
       BY <2>1 DEF OpsWithPath
@@ -42,15 +42,26 @@ LEMMA ValidatedOpIsHarmless ==
       <4>2. PICK p \in {"/publicKey/0", "/service", "/other/a"} : o \in RespelledOp(k, p)
         BY <4>1
       <4> QED BY <4>2 DEF RespelledOp, Kinds
-    <3> QED BY <2>3, <3>1, <3>2 DEF Respelled
+    <3>3. CASE o \in WithExtra
+      <4>1. PICK k \in {"move", "copy", "add", "replace"} :
+                  o \in UNION {UNION {{[kind |-> k, path |-> p, from |-> f, spell |-> "Extra"]} : f \in {"/publicKey/0", "/publicKey", "/service/0", "/other/a"}} :
+                  p \in {"/other", "/other/b"}}
+        BY <3>3 DEF WithExtra
+      <4>2. PICK p \in {"/other", "/other/b"} :
+                  o \in UNION {{[kind |-> k, path |-> p, from |-> f, spell |-> "Extra"]} : f \in {"/publicKey/0", "/publicKey", "/service/0", "/other/a"}}
+        BY <4>1
+      <4>3. PICK f \in {"/publicKey/0", "/publicKey", "/service/0", "/other/a"} : o = [kind |-> k, path |-> p, from |-> f, spell |-> "Extra"]
+        BY <4>2
+      <4> QED BY <4>3 DEF Kinds
+    <3> QED BY <2>3, <3>1, <3>2, <3>3 DEF Respelled
   <2> QED BY <2>1, <2>2, <2>3 DEF AllOps
 <1>2. ~Protected(o.path)
   BY DEF OpValidated
 <1>3. (UsesFrom(o.kind) /\ o.spell # "From") => ~Protected(o.from)
   BY DEF OpValidated
-<1>4. CASE o.spell # "plain"
+<1>4. CASE o.spell \notin {"plain", "Extra"}
   BY <1>4 DEF MayAlterPK, MayAlterSvc, Written
-<1>5. CASE o.spell = "plain"
+<1>5. CASE o.spell \in {"plain", "Extra"}
   <2>1. CASE o.kind \in {"add", "remove", "replace"}
     BY <1>2, <1>5, <2>1 DEF MayAlterPK, MayAlterSvc, Written, Protected
   <2>2. CASE o.kind = "move"
